@@ -1,0 +1,47 @@
+//! Verification hooks, only compiled with the `verif-hooks` feature.
+//!
+//! The hooks observe and never change behaviour: they do not panic and do not
+//! touch any region state. Counters are thread-local so that concurrently
+//! running, independent workloads do not see each other's events.
+
+use std::cell::RefCell;
+
+/// What the UTF-8 probe has seen on this thread since the last [`take_report`].
+#[derive(Debug, Default, Clone)]
+pub struct StrProbeReport {
+    /// Number of byte strings that reached the unchecked UTF-8 conversion.
+    pub probes: u64,
+    /// Number of those that were not valid UTF-8.
+    pub invalid: u64,
+    /// The first few offending byte strings.
+    pub samples: Vec<Vec<u8>>,
+}
+
+thread_local! {
+    static STR_PROBE: RefCell<StrProbeReport> = RefCell::new(StrProbeReport::default());
+}
+
+/// Records whether `bytes`, about to be handed out as `&str`, is valid UTF-8.
+#[inline]
+pub fn str_probe(bytes: &[u8]) {
+    let ok = std::str::from_utf8(bytes).is_ok();
+    let _ = STR_PROBE.try_with(|cell| {
+        if let Ok(mut report) = cell.try_borrow_mut() {
+            report.probes += 1;
+            if !ok {
+                report.invalid += 1;
+                if report.samples.len() < 8 {
+                    report.samples.push(bytes.to_vec());
+                }
+            }
+        }
+    });
+}
+
+/// Returns and resets this thread's probe report.
+#[must_use]
+pub fn take_report() -> StrProbeReport {
+    STR_PROBE
+        .try_with(|cell| std::mem::take(&mut *cell.borrow_mut()))
+        .unwrap_or_default()
+}
